@@ -452,7 +452,17 @@ def classify_listing(case):
 def oracle_dssr(case):
     from rnapolis.adapter import parse_dssr_output
 
-    s3 = corpus.structure(case["file"])
+    # a structure object of its own for every case (residues dropped as drawn), released when the case ends: the
+    # importer is handed many short-lived structures in one process, as a batch script would
+    from rnaverif import gen3d
+
+    base = corpus.structure(case["file"])
+    n0 = len(base.residues)
+    drop = set()
+    for d in case.get("thin", []):
+        if n0 - len(drop) > 3:
+            drop.add(d % n0)
+    s3 = gen3d.rebuild(base, keep=set(range(n0)) - drop)
     names = [r.full_name for r in s3.residues]
     first = {}
     for r in s3.residues:
@@ -556,7 +566,8 @@ def st_dssr(files):
         multi = draw(st.booleans())
         models = draw(st.lists(spec, min_size=1, max_size=3 if multi else 1))
         model = draw(st.one_of(st.none(), st.integers(1, len(models)))) if multi else None
-        return {"kind": "dssr", "file": draw(st.sampled_from(files)), "multimodel": multi, "models": models, "model": model}
+        return {"kind": "dssr", "file": draw(st.sampled_from(files)), "multimodel": multi, "models": models, "model": model,
+                "thin": draw(st.lists(st.integers(0, 500), max_size=6))}
 
     return build()
 
